@@ -119,6 +119,10 @@ pub(crate) async fn finish<A: Actor>(
         exit = ActorExit::Failed(error);
     }
 
+    // The mailbox is closed to new messages by now. Calls still queued hold their
+    // reply ports: the queue outlives the receiver as long as a mailbox handle
+    // exists, and their callers would wait for ever.
+    receiver.discard_queued();
     drop(receiver);
     if let Err(error) = actor.post_stop(myself, state).await
         && matches!(exit, ActorExit::Stopped)
